@@ -7,7 +7,7 @@ from pyvc.execute import Executor
 from pyvc.engine import Contract
 from pyvc.runner import key_of
 ledger = {}
-mods = sys.argv[1:] or sorted(f[:-3] for f in os.listdir('/verif/contracts') if f.endswith('.py') and f != '__init__.py')
+mods = [a for a in sys.argv[1:] if a != 'frames'] or ([] if sys.argv[1:] else sorted(f[:-3] for f in os.listdir('/verif/contracts') if f.endswith('.py') and f not in ('__init__.py', 'frames.py', '_records.py')))
 for modname in mods:
     from pyvc.execute import make_engine
     eng, cons, nodes, shas, errs = make_engine(modname)
@@ -24,6 +24,17 @@ for modname in mods:
         e['n'] += 1
         e['proved'] = e['proved'] and ok
     print(modname, len(main), 'obligations')
+if not sys.argv[1:] or 'frames' in sys.argv[1:]:
+    from pyvc import frame
+    from contracts import frames
+    repo = frame.Repo('/repo', frames.MODULES, frames.EXPLICIT)
+    fr = frame.check_module_functions(repo, list(repo.funcs))
+    for o in fr.obligations:
+        k = key_of(o['name'])
+        e = ledger.setdefault(k, dict(sha='frame', fn=o['fn'], proved=True, n=0))
+        e['n'] += 1
+        e['proved'] = e['proved'] and o['ok']
+    print('frames', len(fr.obligations), 'obligations')
 old = {}
 if os.path.exists('/verif/ledger.json'):
     old = json.load(open('/verif/ledger.json'))
